@@ -25,6 +25,7 @@ type schemaCase struct {
 	Optional  bool        `json:"optional"`
 	RootTypes bool        `json:"roottypes"`
 	RootName  string      `json:"rootname"`
+	Private   [][3]string `json:"private"`
 	Types     [][2]string `json:"types"`
 	Enums     [][2]string `json:"enums"`
 	Ops       [][]string  `json:"ops"`
@@ -133,6 +134,14 @@ func init() {
 				order = append(order, t[0])
 			}
 			var setupErr error
+			// private types: [owner, name, text] - a type added to the owner type only (before the owner is added anywhere)
+			for _, pt := range c.Private {
+				if owner, ok := types[pt[0]]; ok {
+					if err := owner.AddType(pt[1], mk(pt[1], dec(pt[2]))); err != nil && setupErr == nil {
+						setupErr = err
+					}
+				}
+			}
 			all := []jschema.Schema{root}
 			if !c.RootTypes {
 				for _, n := range order {
